@@ -6,7 +6,7 @@ CONSTANTS
   FIXES = {}
   Idents = {"none", "noneHs", "listen", "target", "stranger"}
   Creds = {"idOnly", "rightSecret", "wrongSecret", "resume", "nothing", "otherId", "otherSecret"}
-  MStates = {"active", "revoked", "expired", "inactive", "error", "suspended", "missing"}
+  MStates = {"active", "revoked", "expired", "expiredJust", "inactive", "error", "suspended", "missing"}
   Shapes = {"std", "noListen", "noTarget"}
   MUT = {}
   TStates = {"none", "waiting", "served", "remote", "lateLocal", "lateRemote"}
